@@ -67,14 +67,18 @@ def run_call(call, workdir):
             if kind == "load_many":
                 frames = list(load_many(call[1], fmt=call[2]))
                 return f"objs:{len(frames)}:" + _sha([snap(o) for o in frames])
-            src = load_one(call[1], fmt=call[2])
             out = os.path.join(workdir, call[5] if len(call) > 5 else "out")
+            src = None if kind == "convert" else load_one(call[1], fmt=call[2])
             if kind == "dump_one":
                 dump_one(src, out, fmt=call[3], allow_changes=call[4])
             elif kind == "dump_many":
                 dump_many([src, src], out, fmt=call[3], allow_changes=call[4])
             elif kind == "write_input":
                 write_input(src, out, fmt=call[3])
+            elif kind == "convert":
+                from iodata.__main__ import convert
+
+                convert(call[1], out, False, call[2], call[3], call[4])
             with open(out, "rb") as fh:
                 return "bytes:" + hashlib.sha1(fh.read()).hexdigest()[:20]
     except Exception as exc:
@@ -103,6 +107,40 @@ def _fresh(call):
     return json.loads(p.stdout.strip().splitlines()[-1])[0]
 
 
+def _fresh_seq(calls):
+    """Run a whole history in one fresh interpreter; result of its last call."""
+    env = dict(os.environ)
+    here = os.path.dirname(os.path.dirname(os.path.dirname(os.path.abspath(__file__))))
+    env["PYTHONPATH"] = here + (os.pathsep + os.environ["IODATA_REPO"] if os.environ.get("IODATA_REPO") else "")
+    p = subprocess.run([sys.executable, "-c", "from vh.props.c16 import _worker_main; _worker_main()"],
+                       input=json.dumps({"calls": calls}), capture_output=True, text=True, env=env, timeout=1200)
+    if p.returncode != 0:
+        return None
+    return json.loads(p.stdout.strip().splitlines()[-1])[-1]
+
+
+def _shrink(history, call, ref, budget=14):
+    """Smallest history found (halving, then single removal) after which `call` still differs from `ref`."""
+    hist = list(history)
+    if _fresh_seq([*hist, call]) in (None, ref):
+        return history  # not reproducible from a fresh interpreter in this order: keep everything
+    step = max(1, len(hist) // 2)
+    while budget > 0 and hist:
+        i, progressed = 0, False
+        while i < len(hist) and budget > 0:
+            cand = hist[:i] + hist[i + step:]
+            budget -= 1
+            r = _fresh_seq([*cand, call])
+            if r is not None and r != ref:
+                hist, progressed = cand, True
+            else:
+                i += step
+        if step == 1 and not progressed:
+            break
+        step = max(1, step // 2)
+    return hist
+
+
 def _pool(ctx):
     rng = ctx.rng
     files = corpus.files(max_size=ctx.n(60_000, 200_000))
@@ -114,6 +152,14 @@ def _pool(ctx):
         if fmt is None:
             continue
         calls.append(["load_one", str(p), fmt])
+    # the same loads with the format detected from the file name (several patterns can match one name, e.g.
+    # `*.cp2k.out` and `*.out`): detection may not depend on what was detected before
+    byname = [p for p in corpus.files(max_size=ctx.n(60_000, 200_000)) if p.name.endswith((".out", ".log", ".xyz", ".molden", ".json"))
+              or p.name.startswith(("POSCAR", "CHGCAR", "LOCPOT", "FCIDUMP"))]
+    rng.shuffle(byname)
+    byname.sort(key=lambda p: not p.name.endswith(".out"))
+    for p in byname[: ctx.n(18, 80)]:
+        calls.append(["load_one", str(p), None])
     for p in files[: ctx.n(6, 30)]:
         fmt = corpus.select_fmt(p, "load_many")
         if fmt:
@@ -139,6 +185,18 @@ def _pool(ctx):
         if rng.random() < 0.4:
             k += 1
             calls.append(["write_input", s[1], s[2], rng.choice(["gaussian", "orca", "nosuchprogram"]), False, f"i{k}.in"])
+    # conversions through the library function behind the command-line tool
+    for s in srcs[: ctx.n(6, 20)]:
+        k += 1
+        fmt = rng.choice(["xyz", "molden", "fchk", "wfn", "json", "nosuchformat"])
+        calls.append(["convert", s[1], s[2], fmt, rng.random() < 0.5, f"c{k}.{corpus.EXT.get(fmt, fmt)}"])
+    # numerically degenerate inputs: results must not depend on an error mode set by an earlier call
+    for name, text in _degenerate().items():
+        p = os.path.join(_DEGEN_DIR, name)
+        os.makedirs(_DEGEN_DIR, exist_ok=True)
+        with open(p, "w") as fh:
+            fh.write(text)
+        calls.append(["load_one", p, None])
     # de-duplicate
     seen, out = set(), []
     for c in calls:
@@ -147,6 +205,37 @@ def _pool(ctx):
             seen.add(t)
             out.append(c)
     return out
+
+
+_DEGEN_DIR = os.path.join(tempfile.gettempdir(), f"vh-c16-degenerate-{os.getpid()}")
+
+
+def _degenerate():
+    """Small files on which numpy raises a floating-point flag (zero cell volume, zero exponent, overflow)."""
+    grid = " 2 2 2\n" + " ".join(["1.0"] * 8) + "\n"
+    chg = "zero volume\n 1.0\n 1.0 0.0 0.0\n 2.0 0.0 0.0\n 0.0 0.0 1.0\n H\n 1\nDirect\n 0.0 0.0 0.0\n\n" + grid
+    chg0 = "zero scale\n 0.0\n 1.0 0.0 0.0\n 0.0 1.0 0.0\n 0.0 0.0 1.0\n H\n 1\nDirect\n 0.0 0.0 0.0\n\n" + grid
+    xyz = "1\nhuge\nH 1e308 0.0 0.0\n"
+    return {"CHGCAR.zerovol": chg, "CHGCAR.zeroscale": chg0, "huge.xyz": xyz}
+
+
+def _procstate():
+    """Interpreter- and library-wide settings an API call must leave as it found them."""
+    import locale
+
+    return {
+        "np.geterr": repr(sorted(np.geterr().items())),
+        "np.printoptions": repr(sorted((k, repr(v)) for k, v in np.get_printoptions().items())),
+        # filters for third-party warning classes are installed by lazy imports (scipy.special), not by iodata
+        "warnings.filters": repr([(a, str(b), getattr(c, "__name__", c), str(d), e) for a, b, c, d, e in warnings.filters
+                                  if getattr(c, "__module__", "builtins").split(".")[0] in ("builtins", "iodata")]),
+        "os.getcwd": os.getcwd(),
+        "os.environ": _sha(sorted(os.environ.items())),
+        "sys.path": _sha(list(sys.path)),
+        "sys.recursionlimit": sys.getrecursionlimit(),
+        "locale": repr(locale.setlocale(locale.LC_ALL)),
+        "decimal": repr(__import__("decimal").getcontext()),
+    }
 
 
 def _tables():
@@ -175,6 +264,15 @@ def _tables():
                     out[f"{mi.name}.{k}"] = "unsnappable"
             elif isinstance(v, (int, float, str, tuple)):
                 out[f"{mi.name}.{k}"] = repr(v)
+            elif callable(v) and getattr(v, "__module__", None) == mi.name and getattr(v, "__dict__", None):
+                # attributes stored on function objects (hand-made caches) and functools caches
+                d = {a: b for a, b in vars(v).items() if not a.startswith("__")}
+                if d and not isinstance(v, type):
+                    out[f"{mi.name}.{k}.__dict__"] = _sha(sorted((a, repr(snap(b)) if isinstance(b, (dict, list, set)) else type(b).__name__) for a, b in d.items()))
+            if callable(v) and hasattr(v, "cache_info"):
+                out[f"{mi.name}.{k}.cache_info"] = repr(v.cache_info().currsize)
+    for k, v in _procstate().items():
+        out["process:" + k] = v
     return out
 
 
@@ -213,7 +311,8 @@ def search(ctx):
             if not ok:
                 ctx.fail(f"history-dependent:{calls[i][0]}:{calls[i][3] if len(calls[i]) > 3 else calls[i][2]}",
                          f"call {calls[i]} returned {r} after a history of {n} calls but {ref[i]} alone in a fresh interpreter",
-                         {"call": calls[i], "history": [calls[j] for j in order[:n]][-40:], "mode": "sequential"})
+                         {"call": calls[i], "history": _shrink([calls[j] for j in order[:n]], calls[i], ref[i]),
+                          "mode": "sequential"})
                 break
         t1 = _tables()
         for k in sorted(set(tables0) | set(t1)):
@@ -252,18 +351,39 @@ def search(ctx):
             sys.setswitchinterval(old)
         t2 = _tables()
         for k in sorted(set(tables0) | set(t2)):
+            if k == "process:warnings.filters":
+                # warnings.catch_warnings (used by the API wrapper and by this harness) saves and restores the
+                # process-wide filter list without a lock: its state after a threaded phase is CPython's, see ASSUMPTIONS
+                continue
             if tables0.get(k) != t2.get(k):
                 ctx.fail(f"table-modified:{k}", f"module-level table {k} changed during API calls", {"table": k, "mode": "tables"})
     finally:
         shutil.rmtree(tmp, ignore_errors=True)
+        shutil.rmtree(_DEGEN_DIR, ignore_errors=True)
+
+
+def _rehome(call):
+    """Replay: re-create a generated degenerate input the recorded call refers to."""
+    if isinstance(call, list) and len(call) > 1 and os.path.basename(str(call[1])) in _degenerate() and "vh-c16-degenerate" in call[1]:
+        os.makedirs(_DEGEN_DIR, exist_ok=True)
+        p = os.path.join(_DEGEN_DIR, os.path.basename(call[1]))
+        with open(p, "w") as fh:
+            fh.write(_degenerate()[os.path.basename(call[1])])
+        return [call[0], p, *call[2:]]
+    return call
 
 
 def replay(ctx, obj):
     inp = obj["input"]
     tmp = tempfile.mkdtemp(prefix="c16_")
     try:
+        if "call" in inp:
+            inp["call"] = _rehome(inp["call"])
+            inp["history"] = [_rehome(c) for c in inp.get("history", [])]
         if inp.get("mode") == "tables":
             t0 = _tables()
+            wat = corpus.DATA / "water.xyz"
+            run_call(["convert", str(wat), "xyz", "xyz", False, "c.xyz"], os.path.join(tmp, "c"))
             for p in corpus.files(max_size=60_000)[:40]:
                 fmt = corpus.select_fmt(p)
                 if fmt:
